@@ -18,5 +18,11 @@ for cr in crates:
                 for l in mod.body(f):
                     print(re.sub(r", !dbg !\d+", "", l))
             print(engine_e.compare(mod, "a__%d" % k, "b__%d" % k))
+            from vf import engine_e2
+            try:
+                xa, xb = engine_e2.explain(mod, "a__%d" % k, "b__%d" % k)
+                print("term form A:", xa); print("term form B:", xb)
+            except Exception as e:
+                print("term form:", repr(e))
             sys.exit(0)
 print("not found")
